@@ -658,7 +658,7 @@ def run(tier: str, only=None) -> core.Result:
     cov["unexpanded_states_at_max_depth"] = r["last_frontier"]
     cov["operations"] = len(OPS)
     cov["exhaustive"] = True
-    cov["samples"] = r["samples"] + cov.get("samples", [])[:2]
+    cov["samples"] = r["samples"]
     cov["rule"] = (
         f"breadth-first over all operation histories of length <= {depth} over {len(OPS)} operations {{create(c) x3, "
         "initialize via handle_message (supported / unsupported / absent version) x3, get/update_activity/delete/"
